@@ -31,10 +31,9 @@ def main():
                 continue
             meta = json.load(open(d + "meta.json"))
             checks = meta.get("detected_by") or [sid[:3]]
-            sh("git -C %s checkout -q -- ." % WT)
+            sh("git -C %s reset -q --hard HEAD" % WT)
+            sh("git -C %s clean -fdq" % WT)
             rc, o = sh("git -C %s apply %spatch.diff" % (WT, d))
-            if rc != 0:
-                rc, o = sh("git -C %s apply --3way %spatch.diff" % (WT, d))
             if rc != 0:
                 rows.append((sid, "patch no longer applies", ""))
                 print(sid, "patch no longer applies:", o.strip()[:200])
